@@ -6,6 +6,9 @@ from vf.core import Ctx
 
 
 def run(ctx: Ctx) -> None:
+    # the synchronous API from application threads, two blocking instances, real time (props/syncapi.py, Trace_SyncApi.tla)
+    from props import syncapi
+    syncapi.run(ctx, 'C08')
     from props import queuemodel as qm
     # the answer-queue model (spec/Queue.tla): NoResurrection holds exhaustively with the withdrawal of queued answers and is
     # violated without it (defect D6); its behaviours with unregistrations are replayed into the real responder
